@@ -100,6 +100,11 @@ mut("c03-species-relaxed", "C03", "geometry/geometry.py", "                if cl
 mut("c03-merge-always", "C03", "clustering/sbc.py", "if best_overlap_score > merge_threshold:", "if best_overlap_score > 0:")
 mut("c03-localize-smaller", "C03", "clustering/sbc.py", "                    if n_near > max_near:", "                    if n_near < max_near or max_near == 0:")
 # ---------------------------------------------------------------- C04
+mut("c04-shift-second-group", "C04", "core/periodicfinder.py", "                group_avg = np.mean(final_pos, axis=0)\n                averaged_rel_pos.append(group_avg)\n                averaged_rel_num.append(group_num)\n\n            if i_group == seed_group_index:\n                new_group_index = len(averaged_rel_num) - 1\n        seed_group_index = new_group_index\n\n        # If no atoms are found in the proto cell, return without results\n        if not averaged_rel_pos or not averaged_rel_num:\n            return None, None, None\n\n        averaged_rel_pos = np.array(averaged_rel_pos)\n\n        proto_cell = Atoms(\n            scaled_positions=averaged_rel_pos,",
+    "                group_avg = np.mean(final_pos, axis=0) + (0.06 if len(averaged_rel_pos) == 1 else 0.0)\n                averaged_rel_pos.append(group_avg)\n                averaged_rel_num.append(group_num)\n\n            if i_group == seed_group_index:\n                new_group_index = len(averaged_rel_num) - 1\n        seed_group_index = new_group_index\n\n        # If no atoms are found in the proto cell, return without results\n        if not averaged_rel_pos or not averaged_rel_num:\n            return None, None, None\n\n        averaged_rel_pos = np.array(averaged_rel_pos)\n\n        proto_cell = Atoms(\n            scaled_positions=averaged_rel_pos,",
+    note="second basis atom of 3D prototype cells displaced relative to the first")
+mut("c04-2d-cell-pbc", "C04", "core/periodicfinder.py", "            symbols=averaged_rel_num,\n            pbc=[True, True, False],", "            symbols=averaged_rel_num,\n            pbc=[True, True, True],",
+    note="2D prototype cells flagged periodic in three directions")
 mut("c04-no-average", "C04", "core/periodicfinder.py", "                group_avg = np.mean(final_pos, axis=0)", "                group_avg = final_pos[-1] + 0.08")
 mut("c04-no-minimize", "C04", "core/periodicfinder.py",
     "            proto_cell = matid.geometry.get_minimized_cell(\n                proto_cell, 2, 2 * self.pos_tol\n            )\n            offset = proto_cell.get_positions()[seed_group_index]",
@@ -117,7 +122,10 @@ DEFAULT_WORLDS = {"C01": 900, "C13": 1200, "C17": 800, "C02": 260, "C03": 220, "
 # (no demonstration of a failure exists): the region search is robust against them on clean
 # single crystals / clean two-material stacks.
 EQUIVALENT_ON_FAMILY = {"c02-span-factor", "c02-celllist-cutoff", "c02-multipliers", "c02-strike-region",
-                        "c03-merge-always", "c03-localize-smaller"}
+                        "c03-merge-always", "c03-localize-smaller",
+                        # a rigid shift of every basis atom / a taller vacuum / a flag on a rarely taken path:
+                        # the analysed symmetry is unchanged
+                        "c04-no-average", "c04-no-minimize", "c04-pbc-2d"}
 
 
 def run_one(m, keep=False):
